@@ -15,7 +15,10 @@ LEVEL = 'exploration'
 LEVEL_TEXT = ('Exploration: every generated input is pushed through scan, parse and compose_all of both back-ends in worker '
               'subprocesses; the oracle is the outcome class (result / YAMLError / anything else), a logical step budget '
               '(sys.monitoring PY_START+JUMP events inside yaml code) for hangs, process death for crashes, and a range '
-              'check of every error mark. One slice is enumerated completely: all strings over a 20-symbol indicator '
+              'check of every error mark. Fixed families: every escape form and pair of u-escapes, directive forms, invalid UTF-8/UTF-16, '
+              'long homogeneous runs (regular-expression backtracking), documents padded so that a break / multi-byte character / '
+              'indicator ends a reader refill (as streams). A worker stuck inside one C call is ended by a heartbeat thread and the '
+              'hang confirmed on the bread-crumbed input alone. One slice is enumerated completely: all strings over a 20-symbol indicator '
               'alphabet up to length 4 (quick) / 5 (thorough). Thorough adds an ASan+UBSan build of the glue, -X dev and '
               'valgrind memcheck passes over the C side.')
 LEVEL_NOTE = ('Held on the inputs generated; nesting is kept below the recursion limit (excluded by the property). libyaml itself '
